@@ -59,3 +59,29 @@ Definition fun_eq (a b : ocurve) : bool :=
 
 (* multiset equality of sorted vectors *)
 Definition same_multiset (a b : list Q) : bool := ql_eqb (sortq a) (sortq b).
+
+(* ---- exact integral of the squared deviation of two polynomial curves, per coordinate ----
+   On every span of the merged knots the difference is a polynomial of degree <= d = max degree, its
+   square of degree <= 2d: the open Newton-Cotes rule with 2d+1 interior nodes integrates it exactly
+   (interior nodes only, so one-sided limits at discontinuities never enter). *)
+From NurbsV Require Import Model.Ops Model.Linalg Model.Quadrature.
+
+Definition sqdev_coord (a b : ocurve) (kk : nat) : res Q :=
+  let d := Nat.max (o_p a) (o_p b) in
+  let n := (2 * d + 1)%nat in
+  do w <- compute_open n;
+  do x01 <- open_linspace n;
+  let lo := umin_of (o_U a) (o_p a) in let hi := umax_of (o_U a) (o_p a) in
+  let ks := dedup_sorted (sortq (lo :: hi :: restrict lo hi (o_U a ++ o_U b))) in
+  Ok (qsum_red (map (fun se : Q * Q =>
+        let (s, e) := se in let h := e - s in
+        Qred (h * qsum_red (map2 (fun wk x =>
+                 let u := Qred (s + h * x) in
+                 let dv := nth kk (o_eval a u) 0 - nth kk (o_eval b u) 0 in
+                 Qred (wk * dv * dv)) w x01)))
+      (pairs ks))).
+
+(* max over coordinates *)
+Definition sqdev (a b : ocurve) : res Q :=
+  do l <- mapM (sqdev_coord a b) (seq 0 (o_dim a));
+  Ok (fold_left (fun m x => if Qltb m x then x else m) l 0).
